@@ -98,6 +98,16 @@ class Executor(Engine, ExprMixin, StmtMixin, CallMixin):
                     conj.append(Not(And(a.guard, b.guard)))
         return And(*conj) if conj else z3.BoolVal(True)
 
+    def calls_preceded(self, later, earlier):
+        """every recorded call of `later` is preceded (in program order, on the same path) by a call of `earlier`"""
+        conj = []
+        for i, b in enumerate(self.events):
+            if not (b.qual == later or b.qual.endswith('.' + later)):
+                continue
+            before = [a.guard for a in self.events[:i] if a.qual == earlier or a.qual.endswith('.' + earlier)]
+            conj.append(z3.Implies(b.guard, Or(*before)))
+        return And(*conj) if conj else z3.BoolVal(True)
+
     def let_env(self, c, env, pre):
         """`let` names are macros evaluated in the pre-state."""
         out = dict(env)
@@ -202,14 +212,22 @@ class Executor(Engine, ExprMixin, StmtMixin, CallMixin):
             env2 = dict(env)
             env2['result'] = res
             import re as _re2
-            for name, expr in c.ensures.items():
-                if 'FOLD(' in expr or any(_re2.search(r'\b%s\b' % _re2.escape(g), expr) for g in c.ghost):
-                    continue
-                wd, truth = self.eval_spec(st, expr, c, env2, pre)
-                self.assume(st, z3.Implies(wd, truth))
+            # defining equations of specification functions are instantiated to a bounded depth
+            self.axiom_depth = getattr(self, 'axiom_depth', 0) + 1
+            try:
+                if self.axiom_depth <= 2:
+                    for name, expr in c.ensures.items():
+                        if 'FOLD(' in expr or any(_re2.search(r'\b%s\b' % _re2.escape(g), expr) for g in c.ghost):
+                            continue
+                        wd, truth = self.eval_spec(st, expr, c, env2, pre)
+                        self.assume(st, z3.Implies(wd, truth))
+            finally:
+                self.axiom_depth -= 1
             return res
         # re-hint arguments with the declared parameter types; caller must establish them
         for n, specs in c.params.items():
+            if isinstance(specs, str) and specs.startswith('class:'):
+                continue
             spec = parse_spec(specs)
             v = env.get(n)
             if isinstance(v, V) and spec is not None:
@@ -612,6 +630,9 @@ class Executor(Engine, ExprMixin, StmtMixin, CallMixin):
 
     # ------------------------------------------------------------------ top level
     def make_param(self, st, name, specs):
+        if isinstance(specs, str) and specs.startswith('class:'):
+            from .model import _lookup_class
+            return PyObj(_lookup_class(specs[6:]))
         spec = parse_spec(specs)
         t = z3.Const('p_' + name, Val)
         if spec is not None:
